@@ -557,13 +557,15 @@ class HeapMixin:
     def check_frame_class(self, st: State, region: str, pred, node=None):
         """A callee may write all objects of a class: the caller must hold a class region covering it."""
         def covered(entries):
-            return any(reg == region and (a is None or (callable(a) and self.reg.is_subclass(pred.class_name, a.class_name))) for reg, a in entries)
+            if getattr(pred, "dict_kind", None) is not None:
+                return any(reg == "dict" and (a is None or (callable(a) and getattr(a, "dict_kind", None) == pred.dict_kind)) for reg, a in entries)
+            return any(reg == region and (a is None or (callable(a) and getattr(a, "class_name", None) is not None and self.reg.is_subclass(pred.class_name, a.class_name))) for reg, a in entries)
 
         if not covered(self.allowed_writes):
-            self.oblige(st, "frame", f"class:{pred.class_name}", z3.BoolVal(False), node)
+            self.oblige(st, "frame", f"class:{pred.class_name}" if getattr(pred, "dict_kind", None) is None else f"all:{pred.dict_kind}", z3.BoolVal(False), node)
         for (ltop, lallowed, lid) in st.loop_frames:
             if not covered(lallowed):
-                self.oblige(st, "frame", f"loop{lid}:class:{pred.class_name}", z3.BoolVal(False), node)
+                self.oblige(st, "frame", f"loop{lid}:class:{pred.class_name}" if getattr(pred, "dict_kind", None) is None else f"loop{lid}:all:{pred.dict_kind}", z3.BoolVal(False), node)
 
     def check_frame_wildcard(self, st: State, region: str, node=None):
         """A callee may write `region` of arbitrary objects: the caller must hold the same wildcard."""
@@ -591,6 +593,18 @@ class HeapMixin:
         """Forget everything about `region` at `addr` (used for loop cuts and callee modifies)."""
         if addr is None:
             return self.havoc_all(st, region)
+        if callable(addr) and getattr(addr, "dict_kind", None) is not None:
+            a = z3.Int("hc_a")
+            cond = addr(a, st)
+            ks, vs = addr.dict_sorts
+            names = [self.H.n_dom(ks), self.H.n_map(ks, vs), self.H.n_dkel(ks), self.H.n_dklen(ks)]
+            for name in names:
+                arr = st.heap.get(name, self.H.base.get(name))
+                if arr is None:
+                    continue
+                f = fresh("hdk_" + name, arr.sort())
+                st.heap[name] = z3.Lambda([a], z3.If(cond, f[a], arr[a]))
+            return
         if callable(addr):
             a = z3.Int("hc_a")
             cond = addr(a, st)
